@@ -6,11 +6,11 @@ logdir = sys.argv[1]
 rows = []
 # baseline: the checks as they were before any seeded change was looked at (verif commit f5b25c4)
 baseline = {}
-for bfn in ('oldqueue.log', 'r2queue.log', 'r3queue.log', 'r4queue.log'):
+for bfn in ('oldqueue.log', 'r2queue.log', 'r3queue.log', 'r4queue.log', 'r5queue.log'):
     bf = os.path.join(logdir, bfn)
     if os.path.exists(bf):
         for line in open(bf, errors='replace'):
-            mo = re.match(r'seed=(C\d\d-(?:r[234])?m\d) check=(\S+) rc=(\d+)', line)
+            mo = re.match(r'seed=(C\d\d-(?:r[2345])?m\d) check=(\S+) rc=(\d+)', line)
             if mo:
                 baseline.setdefault(mo.group(1), []).append({'check': mo.group(2), 'exit': int(mo.group(3)), 'detected': mo.group(3) == '1'})
 for d in sorted(glob.glob('/verif/seeded/C*-*m[0-9]')):
@@ -18,8 +18,13 @@ for d in sorted(glob.glob('/verif/seeded/C*-*m[0-9]')):
     readme = open(os.path.join(d, 'README.md')).read() if os.path.exists(os.path.join(d, 'README.md')) else ''
     title = readme.split('\n', 1)[0].lstrip('# ').strip()
     title = re.sub(r'^C\d\d\s*[/ ]\s*m\d\s*(--|:|—|-)?\s*', '', title)
+    title = re.sub(r'^C\d\d-r\dm\d\s*(--|:|—|–|-)?\s*', '', title)
     mm = re.search(r'(?s)Exposed by:?\s*(.*?)(\n\s*\n|\n[A-Z][a-z ]+ (tests|do not|does not)|\nExisting|\nNot noticed|\nGolden|\nCommands)', readme)
     needs = ' '.join(mm.group(1).split()) if mm else ''
+    if not needs:  # round 5: a section "## What is needed (for it) to manifest ..." up to the next heading
+        m2 = re.search(r'(?ms)^#+ [^\n]*needed[^\n]*manifest[^\n]*\n(.*?)(?=^#+ |\Z)', readme)
+        if m2:
+            needs = ' '.join(m2.group(1).split())[:900]
     val = ''
     vf = os.path.join(logdir, f'val-{pid}-{m}.log')
     if os.path.exists(vf):
@@ -47,7 +52,7 @@ for d in sorted(glob.glob('/verif/seeded/C*-*m[0-9]')):
                       'meaning': 'applied to a scratch copy of /repo HEAD: go build ./... and go test ./... pass in both modules (786-test baseline included)'},
         'checks_run': [{'command': f'/verif/seedtest.sh seeded/{name}/patch.diff {c["check"]}', **c} for c in checks],
         'detected_by': sorted({c['check'] for c in checks if c['detected']}),
-        'baseline_before_strengthening': {'verif_commit': '41ba078' if 'r4' in name else 'fcda767' if 'r3' in name else ('eb71efd' if 'r2' in name else 'f5b25c4'), 'runs': baseline.get(name, []),
+        'baseline_before_strengthening': {'verif_commit': '6fe80e1' if 'r5' in name else '41ba078' if 'r4' in name else 'fcda767' if 'r3' in name else ('eb71efd' if 'r2' in name else 'f5b25c4'), 'runs': baseline.get(name, []),
                                           'detected_by': sorted({b['check'] for b in baseline.get(name, []) if b['detected']})},
     }
     json.dump(meta, open(os.path.join(d, 'meta.json'), 'w'), indent=1, ensure_ascii=False)
